@@ -71,6 +71,22 @@ CHECKS = {
             "lists of the same sample.",
             "Truth = activities at removal of a [0] rest-time run of the same sample, decayed in decimal.",
             "DESIGN.md section 4 C15"),
+    "C16": ("Hypothesis search over compounds with labile H[1], D2O and volume fractions, wavelengths, against a "
+            "direct-substitution oracle built from atom counts and masses; sweep of all fasta table molecules",
+            "D2O_sld / D2O_match and the fasta.Molecule sld/Dsld/D2Omatch/D2Osld are compared with neutron_sld of the "
+            "explicitly substituted {atom: count} compound at mass-scaled density, with the H2O/D2O solvent mixture at "
+            "volume fraction 0 and with linear mixing in between; the match point must make the SLD independent of the "
+            "volume fraction. All 99 table molecules are swept on a (v, d) grid.",
+            "neutron_sld itself is trusted here (C03 decides it); Formula.replace is not used by the oracle.",
+            "DESIGN.md section 4 C16"),
+    "C18": ("Hypothesis search over code strings, permutations and rendered FASTA texts against sums over base residue "
+            "entries with an independently written ambiguity-code map; exhaustive sweep of the code tables",
+            "Formula, cell volume, charge, masses and density of generated sequences equal the Fraction-weighted sums of the "
+            "base residue entries; order independence, blanks, '*' truncation, the aa:/dna:/rna: prefixes and FASTA reading "
+            "(records, wrapping, typing by extension) are checked; the 61 code-table entries are swept exhaustively.",
+            "The 20+4+4 base residue entries are the specification; ambiguity codes follow the FASTA convention written out "
+            "in the check.",
+            "DESIGN.md section 4 C18"),
 }
 
 PENDING = {}
